@@ -104,6 +104,21 @@ Theorem C17_after_update : forall (T : Type) (O : NumOps T) (st : fstate) (u : u
 Proof. exact @step_inv. Qed.
 Print Assumptions C17_after_update.
 
+(* assignments that ALIAS the stored value (the period / mode_no getters return the stored array / list itself:
+   gen.period *= c;  per = gen.period; per[i] = v; gen.period = per;  m = gen.mode_no; m[0] = 8; gen.mode_no = m).
+   The in-place edit changes only the stored period (mode_no); the setter then always calls update, which rebuilds
+   delta_k and the grid from the assigned value: the invariant holds again whatever the edit was (every number type) *)
+Theorem C17_aliased_assignment : forall (T : Type) (O : NumOps T) (st st' : fstate) (seed_given : bool),
+  Inv O st ->
+  (forall p_edit pv, step O (edit_period st p_edit) (mkUpd None seed_given (Some pv) None) = (st', Ok) -> Inv O st') /\
+  (forall mn_edit mv, step O (edit_mode_no st mn_edit) (mkUpd None seed_given None (Some mv)) = (st', Ok) -> Inv O st').
+Proof.
+  intros T O st st' sd HI. split.
+  - intros pe pv H. exact (alias_period O st pe pv sd st' HI H).
+  - intros me mv H. exact (alias_mode_no O st me mv sd st' HI H).
+Qed.
+Print Assumptions C17_aliased_assignment.
+
 (* construction establishes the invariant; every history of successful updates keeps it (every number type) *)
 Theorem C17_history_invariant : forall (T : Type) (O : NumOps T) (m0 : cmodel) (period0 : list T)
     (mode_no0 : list Z) (st0 : fstate) (us : list upd),
